@@ -10,7 +10,7 @@ from ..core import Sub, build_machine, run_history
 PROP = {
     "id": "C08",
     "level": "fault_enumeration",
-    "technique": "exhaustive matrix of (8 mutators + 21 readers) x 10 scripted access modes x 3 file images (scripted histories through one interpreter) + Hypothesis RuleBasedStateMachine interleaving allow_write / enter / exit / exit-by-exception / new object / mutators / readers with an explicit mode model (armed, inside, write); oracle: bytes changed => the call was a mutator issued inside a context entered after allow_write(); otherwise the mutator must raise; readers never change bytes, mtime or size, and implicitly opened handles are closed (handler.closed, /proc/self/fd count)",
+    "technique": "exhaustive matrix of (8 mutators + 21 readers) x 10 scripted access modes x 3 file images (scripted histories through one interpreter) + Hypothesis RuleBasedStateMachine interleaving allow_write / enter / exit / exit-by-exception / new object / mutators / readers with an explicit mode model (armed, inside, write); oracle: bytes changed => the call was a mutator issued inside a context entered after allow_write(); otherwise the mutator must raise; readers never change bytes, mtime or size, and implicitly opened handles are closed (handler.closed, /proc/self/fd count); readers include unfinished loops over the file; mutators are also offered the very content the file already holds",
     "level_text": ("Fault enumeration: the mutator x mode matrix (add_block, remove_block, replace_block and the five setters; ten scripted modes: no context, "
                    "allow_write without context, read-only context, write context, context re-entered after a write context, context "
                    "left through an exception (then plain context / no context), allow_write issued inside a read-only context, no context "
